@@ -13,8 +13,8 @@ they are split) is applied field by field, which is the same whenever the delimi
 `float()` / `int()` / `str()` are external: `Ext.parse`, `Ext.readInt` and the `sh : Nat → String`
 argument of the renderers.
 
-Mechanism: `gfSplit` (the line handling of `np.genfromtxt`: comment cut at `#`, `strip(" \r\n")`,
-blank lines skipped), `readCols` (MainRuns line filter by channel substring, equal field counts,
+Mechanism: `gfSplit` (the line handling of `np.genfromtxt(..., comments=None)`: `strip(" \r\n")`, blank
+lines skipped; a `#` is data), `readCols` (MainRuns line filter by channel substring, equal field counts,
 loose conversion of the scan number, first-appearance name order, per-name line gather, transpose and
 broadcast, shape `(samples, max scan + 1)`), `readRows` (four raw header rows → run ∧ channel column
 mask with NumPy broadcasting of a one-field row → `usecols` gather of every non-blank sample row →
@@ -94,14 +94,13 @@ def tableOf (explicit : Option Char) (lines : List String) : Option Table :=
     | [] => none
     | d :: _ => some (lines.map (splitLine d))
 
-/-! ## the line handling of `np.genfromtxt` (`LineSplitter._delimited_splitter`) -/
+/-! ## the line handling of `np.genfromtxt` (`LineSplitter._delimited_splitter`)
 
-def hasHash (s : String) : Bool := s.toList.contains '#'
-
-/-- `line.split("#")[0]` on a split line -/
-def cutComment : Row → Row
-  | [] => []
-  | f :: t => if hasHash f then [String.ofList (f.toList.takeWhile (fun c => c != '#'))] else f :: cutComment t
+All three `np.genfromtxt` calls of `thermo.py` pass `comments=None` (since e68affa): the splitter does
+not look for a comment, a `#` is a character like any other.  The readers below take the splitter as
+an argument (`…With split`, NumPy's `LineSplitter` object) so that the mechanism with NumPy's default
+`comments="#"` (`gfSplitOld`, what the code did before e68affa) stays expressible: `readColsOld`,
+`readRowsOld` and the regression theorems about them. -/
 
 def isWs (c : Char) : Bool := c == ' ' || c == '\r' || c == '\n'
 
@@ -117,15 +116,31 @@ def mapLast (g : String → String) : Row → Row
   | [f] => [g f]
   | f :: t => f :: mapLast g t
 
-/-- the fields `genfromtxt` sees of one line: the comment is cut, the line is stripped of blanks and
-line ends at both ends (fields in the middle keep theirs), an empty line has no fields (it is skipped) -/
+/-- the fields `genfromtxt(comments=None)` sees of one line: the line is stripped of blanks and line
+ends at both ends (fields in the middle keep theirs), an empty line has no fields (it is skipped) -/
 def gfSplit (r : Row) : Row :=
-  let s := mapLast rstrip (mapHead lstrip (cutComment r))
+  let s := mapLast rstrip (mapHead lstrip r)
   if s == [""] then [] else s
 
-/-- the non-blank lines as `genfromtxt` sees them, after the optional decimal-comma replacement -/
-def gfLines (comma : Bool) (lines : Table) : Table :=
-  (lines.map (fun r => gfSplit (r.map (fixDec comma)))).filter (fun r => !r.isEmpty)
+/-- the non-blank lines as a `genfromtxt` with line splitter `split` sees them, after the optional
+decimal-comma replacement -/
+def gfLinesWith (split : Row → Row) (comma : Bool) (lines : Table) : Table :=
+  (lines.map (fun r => split (r.map (fixDec comma)))).filter (fun r => !r.isEmpty)
+
+/-- … with `comments=None`, as the code calls it -/
+def gfLines (comma : Bool) (lines : Table) : Table := gfLinesWith gfSplit comma lines
+
+/-! ### NumPy's default `comments="#"` (the code before e68affa) -/
+
+def hasHash (s : String) : Bool := s.toList.contains '#'
+
+/-- `line.split("#")[0]` on a split line -/
+def cutComment : Row → Row
+  | [] => []
+  | f :: t => if hasHash f then [String.ofList (f.toList.takeWhile (fun c => c != '#'))] else f :: cutComment t
+
+/-- the fields `genfromtxt(comments="#")` sees of one line: the comment is cut first -/
+def gfSplitOld (r : Row) : Row := gfSplit (cutComment r)
 
 /-! ## small array helpers -/
 
@@ -176,17 +191,18 @@ def parseColLine {α : Type} (x : Ext α) (n : Nat) (r : Row) : ColRec α :=
   { scan := (x.readInt (r.getD 1 "")).getD (-1), name := trunc 32 (r.getD 2 ""),
     data := ((r.drop 4).take n).map x.parse }
 
-/-- `_icap_csv_columns_read(path, line_type=chan, …)`; `none` = an exception (`ValueError` or
-`IndexError`).  Lines that `genfromtxt` skips (blank after the comment cut) do not count; lines of
-unequal field count, fewer than `4 + n` fields, no selected line, a single selected line (0-d record),
-a name whose line count is neither the scan count nor 1, or a maximum scan below −1 all raise. -/
-def readCols {α : Type} (x : Ext α) (comma : Bool) (chan : String) (t : Table) : Option (Img α) :=
+/-- `_icap_csv_columns_read(path, line_type=chan, …)` with `split` the line splitter of its two
+`genfromtxt` calls; `none` = an exception (`ValueError` or `IndexError`).  Lines that `genfromtxt`
+skips (blank) do not count; lines of unequal field count, fewer than `4 + n` fields, no selected line,
+a single selected line (0-d record), a name whose line count is neither the scan count nor 1, or a
+maximum scan below −1 all raise. -/
+def readColsWith {α : Type} (split : Row → Row) (x : Ext α) (comma : Bool) (chan : String) (t : Table) : Option (Img α) :=
   match t with
   | [] => none
   | first :: rest =>
-    let n := (gfSplit first).countP (fun f => f != "")   -- count_nonzero(genfromtxt([line], dtype="U1"))
+    let n := (split first).countP (fun f => f != "")     -- count_nonzero(genfromtxt([line], dtype="U1"))
     if n == 0 then none else
-    let sel := gfLines comma (rest.filter (fun r => lineStarts r && lineHas chan r))
+    let sel := gfLinesWith split comma (rest.filter (fun r => lineStarts r && lineHas chan r))
     if sel.length == 1 then none else                   -- genfromtxt gives a 0-d record: no axis 1
     match sameLen sel with
     | none => none                                      -- no line (amax of an empty array) or ragged lines
@@ -201,6 +217,14 @@ def readCols {α : Type} (x : Ext α) (comma : Bool) (chan : String) (t : Table)
           fitCols w.toNat mine.length (transposeN n (mine.map (·.data))))) with
       | none => none
       | some planes => some { names := names, planes := planes }
+
+/-- the columns reader as the code is: both `genfromtxt` calls with `comments=None` -/
+def readCols {α : Type} (x : Ext α) (comma : Bool) (chan : String) (t : Table) : Option (Img α) :=
+  readColsWith gfSplit x comma chan t
+
+/-- the columns reader before e68affa: both `genfromtxt` calls with NumPy's default `comments="#"` -/
+def readColsOld {α : Type} (x : Ext α) (comma : Bool) (chan : String) (t : Table) : Option (Img α) :=
+  readColsWith gfSplitOld x comma chan t
 
 /-! ## samples in rows -/
 
@@ -220,8 +244,9 @@ def colOk (chan : String) (h : Hdr) : Bool := trunc 8 h.run == "MainRuns" && tru
 /-- NumPy broadcasting of a one-element mask to length `L` -/
 def bcast (L : Nat) (r : Row) : Row := if r.length == 1 then List.replicate L (r.headD "") else r
 
-/-- the reader once the four header rows are zipped into per-column headers -/
-def readRowsH {α : Type} (x : Ext α) (comma : Bool) (chan : String) (hdr : List Hdr) (body : Table) : Option (Img α) :=
+/-- the reader once the four header rows are zipped into per-column headers (`split`: the line
+splitter of its `genfromtxt` call) -/
+def readRowsHWith {α : Type} (split : Row → Row) (x : Ext α) (comma : Bool) (chan : String) (hdr : List Hdr) (body : Table) : Option (Img α) :=
   if !(hdr.any (fun h => trunc 8 h.run == "MainRuns")) then none else
   let sel := hdr.filter (colOk chan)
   if sel.isEmpty then none else                       -- amax of an empty array
@@ -230,7 +255,7 @@ def readRowsH {α : Type} (x : Ext α) (comma : Bool) (chan : String) (hdr : Lis
   | some scanNos =>
     let selNames := sel.map (fun h => trunc 32 h.name)
     -- genfromtxt(usecols=flatnonzero(col_mask)): the selected fields of every non-blank sample row, with their names
-    let data : List (List (α × String)) := (gfLines comma body).map (fun r =>
+    let data : List (List (α × String)) := (gfLinesWith split comma body).map (fun r =>
       ((r.zip hdr).filter (fun p => colOk chan p.2)).map (fun p => (x.parse p.1, trunc 32 p.2.name)))
     if data.any (fun r => r.length != sel.length) then none else   -- a row that ends before a selected column
     let w := maxInt scanNos + 1
@@ -242,12 +267,13 @@ def readRowsH {α : Type} (x : Ext α) (comma : Bool) (chan : String) (hdr : Lis
     | none => none
     | some planes => some { names := unames, planes := planes }
 
-/-- `_icap_csv_rows_read(path, col_type=chan, …)`; `none` = an exception (`ValueError` or
+/-- `_icap_csv_rows_read(path, col_type=chan, …)` with `split` the line splitter of its `genfromtxt`
+call; `none` = an exception (`ValueError` or
 `IndexError`).  Header rows past the end of the file read as one empty field; the run and channel
 masks broadcast when one of them has a single field; the scan and name rows must be as long as the
 mask.  No sample row at all gives an image with no samples; a sample row is accepted as soon as it
 reaches the last selected column; blank rows are skipped. -/
-def readRows {α : Type} (x : Ext α) (comma : Bool) (chan : String) (t : Table) : Option (Img α) :=
+def readRowsWith {α : Type} (split : Row → Row) (x : Ext α) (comma : Bool) (chan : String) (t : Table) : Option (Img α) :=
   let runs := t.getD 0 [""]
   let scans := t.getD 1 [""]
   let names := t.getD 2 [""]
@@ -256,7 +282,20 @@ def readRows {α : Type} (x : Ext α) (comma : Bool) (chan : String) (t : Table)
   let runs' := bcast L runs
   let types' := bcast L types
   if !(runs'.length == L && types'.length == L && scans.length == L && names.length == L) then none else
-  readRowsH x comma chan (zipHdr runs' scans names types') (t.drop 4)
+  readRowsHWith split x comma chan (zipHdr runs' scans names types') (t.drop 4)
+
+/-- the rows reader as the code is: `genfromtxt(..., comments=None)` -/
+def readRowsH {α : Type} (x : Ext α) (comma : Bool) (chan : String) (hdr : List Hdr) (body : Table) : Option (Img α) :=
+  readRowsHWith gfSplit x comma chan hdr body
+
+/-- `_icap_csv_rows_read(path, col_type=chan, …)` as the code is (`readRowsWith` with the splitter of
+`genfromtxt(..., comments=None)`) -/
+def readRows {α : Type} (x : Ext α) (comma : Bool) (chan : String) (t : Table) : Option (Img α) :=
+  readRowsWith gfSplit x comma chan t
+
+/-- the rows reader before e68affa: `genfromtxt` with NumPy's default `comments="#"` -/
+def readRowsOld {α : Type} (x : Ext α) (comma : Bool) (chan : String) (t : Table) : Option (Img α) :=
+  readRowsWith gfSplitOld x comma chan t
 
 /-! ## format sniffing and `load` -/
 
